@@ -500,6 +500,11 @@ class pile_fixed_sizes:
     raises = (PileError,)
     deterministic_reads = ("_contents",)
     static_checks = [lambda: xcheck_intmap(rounds=24), lambda: reads_only(PI + "Pile._get_fixed_rows_sizes", {"contents", "focus"})]
+    notes = ("children: Widget protocol (sizing() any set of modes, pack()/rows() in 0 .. 2^22-1); options as Pile.options() makes them, "
+             "amounts < 2^22 (pile_wf); `height / weight` and `int(coefficient * weight + 0.5)` read as exact rationals (DESIGN 3.6) -- only "
+             "`>= 1` of the resulting height is used; the local dicts are modelled by pyvc.fmap with int keys (static cross-check against "
+             "CPython dicts), their len() at the end by the dict-cardinality axiom MapVal.card_range_axiom; whether the call raises is a "
+             "function of the Pile's contents (deterministic_outcome; the body reads nothing else: static check)")
     ensures_callee = staticmethod(_geometry_at_call_site)
     on_raise_callee = staticmethod(_geometry_raise_clause)
 
@@ -549,6 +554,7 @@ class pile_grs_fixed:
     result = GRS_RESULT
     raises = (PileError,)
     deterministic_reads = ("_contents",)
+    static_checks = [lambda: reads_only(GRS_KEY, {"contents", "focus", "get_item_rows", "_get_fixed_rows_sizes"})]
     ensures_callee = staticmethod(_geometry_at_call_site)
     on_raise_callee = staticmethod(_geometry_raise_clause)
 
